@@ -8,4 +8,4 @@ def main(tier):
 
 
 def replay(path):
-    return c16.replay(path)
+    return c16.replay(path, "C15")
